@@ -63,11 +63,11 @@ type Violation struct {
 }
 
 type caseResult struct {
-	I          int              `json:"i"`
-	Counters   map[string]int64 `json:"c,omitempty"`
-	Hashes     []uint64         `json:"h,omitempty"`
-	Samples    []any            `json:"s,omitempty"`
-	Violations []Violation      `json:"v,omitempty"`
+	I          int               `json:"i"`
+	Counters   map[string]int64  `json:"c,omitempty"`
+	Hashes     []uint64          `json:"h,omitempty"`
+	Samples    []any             `json:"s,omitempty"`
+	Violations []Violation       `json:"v,omitempty"`
 	Extra      []json.RawMessage `json:"x,omitempty"`
 }
 
